@@ -686,6 +686,16 @@ fn run(ctx: &mut Ctx) {
         }
         let _ = k;
     }
+    // (d'') tables that have grown old, drawn: one aircraft with a position, a BDS 5,0 track and a BDS 6,0 heading
+    // keeps being heard through other frames while the virtual clock moves on (ages 159 s .. 4 months), the
+    // table is drawn after every frame and nothing ever expires
+    for (k, opts) in aged_draw_option_sets().iter().enumerate() {
+        job += 1;
+        if ctx.mine(job) {
+            ctx.count("aged-table-drawn");
+            aged_draw(ctx, k, opts);
+        }
+    }
     // (e) CLI (only from the release-like harness: the CLI binaries are the same for both)
     if crate::profile_name() == "release-like" {
         if let Err(e) = cli::available() {
@@ -700,6 +710,61 @@ fn run(ctx: &mut Ctx) {
     ctx.bound("byte-level lines", byte_level_lines().len());
     ctx.bound("history depth", if thorough { 4 } else { 3 });
     ctx.out.exhaustive = true;
+}
+
+fn aged_draw_option_sets() -> Vec<Vec<&'static str>> {
+    let mut v = vec![];
+    for i in ["aAews", "e", "", "Q"] {
+        for extra in [&[][..], &["-U"], &["-R"], &["-U", "-R"]] {
+            let mut o = vec!["-i", i, "--update=-1", "--delete-after=100000000"];
+            o.extend_from_slice(extra);
+            v.push(o);
+        }
+    }
+    v
+}
+
+fn aged_draw(ctx: &mut Ctx, k: usize, opts: &[&str]) {
+    use crate::props::rowmodel::{ADDR, P1, aircraft_actions, pos_frame};
+    use crate::run::TimedStep;
+    let cfg = Cfg::named(opts, "aged.fifo");
+    let a = ADDR[0];
+    let acts = aircraft_actions("A", a);
+    let pick = |n: &str| -> Vec<u8> {
+        match &acts.iter().find(|x| x.name.ends_with(n)).unwrap_or_else(|| panic!("no action {n}")).act {
+            crate::engine::explore::Act::Line(l) => l.clone(),
+            _ => unreachable!(),
+        }
+    };
+    let mut warm: Vec<Vec<u8>> = ["DF11 CA5", "DF20 BDS1,7 all", "TC4 EIN45F cat3", "DF5 4521", "DF20 BDS5,0", "DF21 2101 BDS6,0", "TC19 v1"].iter().map(|n| pick(n)).collect();
+    warm.push(pos_frame(17, a, 11, 36000, P1, false).hex().into_bytes());
+    warm.push(pos_frame(17, a, 11, 36000, P1, true).hex().into_bytes());
+    let mut steps = vec![TimedStep { bytes: crate::run::join_lines(&warm), advance_ms: 0 }];
+    let keep_alive = [pick("DF4 9000ft"), pick("DF5 1000"), pick("TC29"), pick("DF0")];
+    for (i, adv) in [9_999i64, 1, 149_000, 999, 1, 1, 5_000, 155_000, 1_000_000, 86_400_000, 10_000_000_000].iter().enumerate() {
+        if let Some(last) = steps.last_mut() {
+            last.advance_ms = *adv;
+        }
+        steps.push(TimedStep { bytes: crate::run::join_lines(&[keep_alive[i % keep_alive.len()].clone()]), advance_ms: 0 });
+    }
+    steps.push(TimedStep { bytes: { let mut l = sentinel_line(); l.push(b'\n'); l }, advance_ms: 0 });
+    let t = new_table();
+    crate::run::describe_current(&format!("C01 aged table drawn, options {opts:?}"));
+    let (rep, _out) = capture_stdout(|| crate::run::run_timed(&cfg, &steps, &t));
+    ctx.eval();
+    if let Some(m) = rep.machinery {
+        ctx.machinery(format!("C01 aged-draw: {m}"));
+        return;
+    }
+    let sentinel_ok = snapshot(&t).iter().any(|r| r.key == SENT);
+    if !rep.outcome.is_ok() || !sentinel_ok {
+        ctx.violation(
+            &format!("C01/aged-table-drawn/{}", crate::profile_name()),
+            &opts.join(" "),
+            || format!("an aircraft that is still heard while its position, track and heading grow old (160 s and more), table drawn after every frame, options [{}], {} build: {}", opts.join(" "), crate::profile_name(), if rep.outcome.is_ok() { "sentinel line not processed".to_string() } else { rep.outcome.label() }),
+            || json!({"kind": "aged_draw", "k": k, "profile": crate::profile_name()}),
+        );
+    }
 }
 
 fn structured_unique(thorough: bool, i: &mut u32, out: &mut Vec<Vec<u8>>) {
@@ -749,6 +814,13 @@ fn replay(ctx: &mut Ctx, case: &Value) {
     let o: Vec<&str> = opts.iter().map(|s| s.as_str()).collect();
     let bytes = |v: &Value| -> Vec<u8> { v.as_array().map(|a| a.iter().filter_map(|x| x.as_u64().map(|b| b as u8)).collect()).unwrap_or_default() };
     match case.get("kind").and_then(|x| x.as_str()) {
+        Some("aged_draw") => {
+            let k = case.get("k").and_then(|x| x.as_u64()).unwrap_or(0) as usize;
+            let sets = aged_draw_option_sets();
+            let opts = &sets[k % sets.len()];
+            crate::run::say(&format!("aged table drawn, options {opts:?}, {} build", crate::profile_name()));
+            aged_draw(ctx, k, opts);
+        }
         Some("line") => {
             let cfg = Cfg::new(&o);
             let lines: Vec<Vec<u8>> = match case.get("lines").and_then(|p| p.as_array()) {
